@@ -204,13 +204,14 @@ open OklIO
 def step (_ : Unit) (toks : List String) : Unit × String :=
   match toks with
   | ["T", _, _, ir] =>
-    match parseKernel ir with
-    | some k =>
-      let (r, fl) := accepts k
-      let v := match r with
-        | .trap => "trap"
-        | _ => bits fl
-      ((), "v=" ++ v ++ " ir=" ++ showKernel k)
+    -- kernelsAreValid: every @kernel function of the source has to be valid (all are checked)
+    match (ir.splitOn "+").mapM parseKernel with
+    | some ks =>
+      let rs := ks.map accepts
+      let v :=
+        if rs.any (fun r => r.1 == .trap) then "trap"
+        else bits ((List.range 7).map fun i => rs.all (fun r => r.2.getD i false))
+      ((), "v=" ++ v ++ " ir=" ++ "+".intercalate (ks.map showKernel))
     | none => ((), "bad-ir")
   | ["S", _, ir] =>
     match parseKernel ir with
